@@ -22,13 +22,14 @@ type c13inode struct {
 	open    bool
 	closes  int
 	short   bool // some write to this inode was short
+	shortAt int  // bytes the inode held when the (first) short write began
 }
 
 var c13 struct {
-	inodes []*c13inode       // fd = 100 + index
-	links  map[string]int    // path -> inode index
-	linkAt map[string]int    // path -> bytes written to the inode when it was linked
-	faults int               // faults injected so far
+	inodes []*c13inode    // fd = 100 + index
+	links  map[string]int // path -> inode index
+	linkAt map[string]int // path -> bytes written to the inode when it was linked
+	faults int            // faults injected so far
 }
 
 func c13fault(what string) (unix.Errno, bool) {
@@ -71,6 +72,9 @@ func c13install() {
 		if n > 0 && c13.faults < vrt.Param("MAXFAULTS") && vrt.Bool("shortWrite") {
 			c13.faults++
 			n--
+			if !ino.short {
+				ino.shortAt = ino.written
+			}
 			ino.short = true
 		}
 		ino.written += n
